@@ -25,7 +25,7 @@ CONSTANTS Alphabet,   \* byte codes; must contain 47 ('/') and its neighbours 46
 
 VARIABLES a, b, c, na, nb, nc
 vars == <<a, b, c, na, nb, nc>>
-View == <<a, b, c>>      \* chunk family: the same key can be built from different chunkings
+
 
 ASSUME {46, 47, 48} \subseteq Alphabet /\ Alphabet \subseteq 0..255
 
@@ -40,7 +40,7 @@ Spec == Init /\ [][Next]_vars
 
 \* chunk sets ('a' = 97, 'b' = 98, '/' = 47); the long chunks differ from each other within their first bytes
 NoChunks == {}
-C3 == <<98, 97, 98>>
+C3 == <<99, 97, 98>>              \* a third letter: no chunk is a concatenation of other chunks (unique chunkings)
 C7 == <<97, 98, 97, 98, 97, 98, 97>>
 C8 == <<98, 97, 98, 97, 98, 97, 98, 97>>
 C9 == <<97, 97, 98, 98, 97, 97, 98, 98, 97>>
